@@ -13,6 +13,7 @@ import (
 	"os"
 	"runtime"
 	"strings"
+	"sync"
 	"sync/atomic"
 	"time"
 )
@@ -23,13 +24,13 @@ type Parser struct {
 	Object    bool
 	New       func() interface{}
 	Init      func(c interface{})
-	Parse     func(c interface{}) (interface{}, bool)
+	Parse     func(c interface{}, input string) (interface{}, bool)
 	Action    func(s, a int) int
 	Translate func(c int) int
 	Consts    func() map[string]int
 	Trace     func(on bool)
 	ErrAcc    func() (int, int)
-	SetHooks  func(next func(int) (int, int), rec func(int))
+	SetHooks  func(next func(string, int) (int, int), rec func(int))
 }
 
 var registry = map[string]*Parser{}
@@ -109,6 +110,7 @@ type budgetPanic struct{}
 type lexPanic struct{ at int }
 
 type env struct {
+	id      string // parallel mode: the input string that identifies this parse
 	inHash  uint64 // hash of the values the parser handed to the lexer
 	feed    *Feed
 	fetched int
@@ -120,7 +122,36 @@ type env struct {
 
 var cur *env // the environment of the running parse (exactly one goroutine runs at a time)
 
-func hookNext(incoming int) (int, int) {
+// parallel mode: contexts run in real goroutines; the environment of a parse is found through the input string the
+// generated parser hands to GetToken
+var (
+	parSteps     int64 // reductions performed by all contexts of the running parallel job
+	parallelMode bool
+	parEnvs      sync.Map // input id -> *env
+)
+
+func hookNext(input string, incoming int) (int, int) {
+	if parallelMode {
+		v, ok := parEnvs.Load(input)
+		if !ok {
+			panic("engbrt: unknown parse id " + input)
+		}
+		e := v.(*env)
+		e.steps++
+		if e.steps > e.budget {
+			panic(budgetPanic{})
+		}
+		e.inHash = (e.inHash ^ uint64(uint32(incoming))) * 1099511628211
+		i := e.fetched
+		e.fetched++
+		if e.feed.PanicAt >= 0 && i == e.feed.PanicAt {
+			panic(lexPanic{i})
+		}
+		if i >= len(e.feed.Toks) {
+			return -1, 0
+		}
+		return e.feed.Toks[i].Term, e.feed.Toks[i].V
+	}
 	atomic.StoreInt64(&lastHook, time.Now().UnixNano())
 	cur.inHash = (cur.inHash ^ uint64(uint32(incoming))) * 1099511628211
 	e := cur
@@ -146,6 +177,13 @@ func hookNext(incoming int) (int, int) {
 }
 
 func hookRec(r int) {
+	if parallelMode {
+		// actions cannot tell which context they run in; reductions are not recorded in parallel mode, only bounded
+		if atomic.AddInt64(&parSteps, 1) > 400000 {
+			panic(budgetPanic{})
+		}
+		return
+	}
 	atomic.StoreInt64(&lastHook, time.Now().UnixNano())
 	e := cur
 	e.steps++
@@ -162,9 +200,13 @@ func defaultBudget(f *Feed) int { return 10000 + 200*len(f.Toks) }
 
 // runParse performs one Parse on context c (nil for the global form) under e.
 func runParse(p *Parser, c interface{}, e *env) (res ParseResult) {
-	beginParse()
+	if !parallelMode {
+		beginParse()
+	}
 	defer func() {
-		endParse()
+		if !parallelMode {
+			endParse()
+		}
 		res.Recs = e.recs
 		res.Fetched = e.fetched
 		res.InHash = fmt.Sprintf("%x", e.inHash)
@@ -188,7 +230,7 @@ func runParse(p *Parser, c interface{}, e *env) (res ParseResult) {
 			}
 		}
 	}()
-	v, ok := p.Parse(c)
+	v, ok := p.Parse(c, e.id)
 	if !ok {
 		res.Outcome = "nilret"
 		return
@@ -358,6 +400,8 @@ func runJob(j *Job) *JobResult {
 		}
 	case "interleave":
 		runInterleaved(p, j, r, budgetOf)
+	case "parallel":
+		runParallel(p, j, r, budgetOf)
 	case "matrix":
 		for s := 0; s < j.NS; s++ {
 			row := make([]int, j.NA)
@@ -545,6 +589,46 @@ func runInterleaved(p *Parser, j *Job, r *JobResult, budgetOf func(*Feed) int) {
 	for _, t := range tasks {
 		r.CtxParses = append(r.CtxParses, t.results)
 	}
+}
+
+// runParallel runs every context in its own goroutine with no scheduler in between (for the race detector build).
+func runParallel(p *Parser, j *Job, r *JobResult, budgetOf func(*Feed) int) {
+	if !p.Object {
+		r.Err = "parallel needs an object-mode parser"
+		return
+	}
+	parallelMode = true
+	atomic.StoreInt64(&parSteps, 0)
+	defer func() { parallelMode = false }()
+	n := len(j.Ctxs)
+	results := make([][]ParseResult, n)
+	var wg sync.WaitGroup
+	start := make(chan struct{})
+	for i := 0; i < n; i++ {
+		wg.Add(1)
+		go func(i int) {
+			defer wg.Done()
+			<-start
+			c := p.New()
+			for k := range j.Ctxs[i] {
+				op := &j.Ctxs[i][k]
+				switch op.Op {
+				case "init":
+					p.Init(c)
+				case "new":
+					c = p.New()
+				case "parse":
+					e := &env{id: fmt.Sprintf("%s/c%d/p%d", j.Parser, i, k), feed: op.Feed, budget: budgetOf(op.Feed)}
+					parEnvs.Store(e.id, e)
+					results[i] = append(results[i], runParse(p, c, e))
+					parEnvs.Delete(e.id)
+				}
+			}
+		}(i)
+	}
+	close(start)
+	wg.Wait()
+	r.CtxParses = results
 }
 
 // Main reads the jobs file, runs the jobs, writes the results file.
